@@ -4,6 +4,8 @@ import (
 	"bytes"
 	"context"
 	"fmt"
+	"github.com/insomniacslk/dhcp/dhcpv4/nclient4"
+	"github.com/insomniacslk/dhcp/dhcpv6/nclient6"
 	"io"
 	"net"
 	"os"
@@ -38,6 +40,9 @@ type scenario struct {
 	// at the instant of the scenario, one after the other; the call ends with the second (every datagram is shown to the
 	// matcher exactly once, whatever the client logs about it)
 	Second bool `json:"second,omitempty"`
+	// Junk: an undecodable datagram and an empty one reach the client right after its first transmission (whatever it logs
+	// about them, the response that follows is read whole)
+	Junk bool `json:"junk,omitempty"`
 }
 
 func writeErrOf(k int) error {
@@ -70,6 +75,8 @@ var dests = []*net.UDPAddr{
 	{IP: net.ParseIP("ff02::1:2"), Port: 547},
 	{IP: net.ParseIP("fe80::1"), Port: 547, Zone: "eth1"}, // a scoped destination: the zone is part of where a datagram goes
 	{IP: net.ParseIP("ff02::1:2"), Port: 547, Zone: "7"},
+	nclient4.DefaultServers, // the libraries' own address objects, handed in by the caller
+	nclient6.AllDHCPRelayAgentsAndServers,
 }
 
 // how many transmissions of a call with a negative try count are observed before it is cancelled (more than the 10 of
@@ -176,6 +183,11 @@ func run(t *testing.T, sc scenario, want []byte, xid uint32) (res result) {
 				off = tryLen - time.Nanosecond
 			}
 			synctest.Wait()
+			if sc.Junk {
+				conn.Inject(sconn.Datagram{B: f.Datagram("undecodable", xid, 900, f.AcceptType()), From: dests[sc.Dest], Nonce: 900, Class: "undecodable"})
+				conn.Inject(sconn.Datagram{B: []byte{}, From: dests[sc.Dest], Nonce: 901, Class: "empty"})
+				synctest.Wait()
+			}
 			time.Sleep(tryStart + off)
 			synctest.Wait() // the try's transmission (if any at this instant) has happened
 			if sc.Off != "inwrite" {
@@ -396,6 +408,9 @@ func grid(quick bool) []scenario {
 									out = append(out, scenario{Fam: fm, T: T, N: n, Accept: k, Off: off, Extra: ex, Dest: d, CtxDL: dl, Cfg: len(out) % cli.NCfg})
 									if off == "middle" && !dl {
 										out = append(out, scenario{Fam: fm, T: T, N: n, Accept: k, Off: off, Extra: ex, Dest: d, Cfg: len(out) % cli.NCfg, Second: true})
+									}
+									if off == "last" && !dl {
+										out = append(out, scenario{Fam: fm, T: T, N: n, Accept: k, Off: off, Extra: ex, Dest: d, Cfg: len(out) % cli.NCfg, Junk: true})
 									}
 								}
 							}
